@@ -440,7 +440,10 @@ class ShardedFileAccessor(neuroglancer_scripts.accessor.Accessor,
     def store_file(self, relative_path, buf, overwrite=False, **kwargs):
         if not overwrite and self.file_exists(relative_path):
             raise OSError(f"file at {relative_path} already exists")
-        with open(self._file_path(relative_path), "wb") as fp:
+        file_path = self._file_path(relative_path)
+        # e.g. mesh fragments are stored in a sub-directory of the dataset
+        file_path.parent.mkdir(parents=True, exist_ok=True)
+        with open(file_path, "wb") as fp:
             fp.write(buf)
 
     def fetch_chunk(self, key, chunk_coords):
